@@ -182,14 +182,21 @@ def isSubseq : List Nat → List Nat → Bool
 def Ctx.notifs (c : Ctx) : List Nat :=
   (c.scn.msgsUpTo c.n').filterMap (fun p => match p with | .notif n => some n | _ => none)
 
+/-- the operation of the step is the call `k` itself -/
+def Ctx.callsNow (c : Ctx) (k : Nat) : Bool := match c.op with | .call k' _ => k' = k | _ => false
+
+/-- the marker a result of call `k` must carry: `t<k>` for tools/list, none for ping -/
+def Ctx.expectedMarker (c : Ctx) (k : Nat) : Option Nat :=
+  if c.m.lists.contains k || (match c.op with | .call k' l => k' = k && l | _ => false) then some k else none
+
 /-- clause raised by one completion token -/
 def checkDone (c : Ctx) (seenBefore : List Nat) (k : Nat) (o : Outcome) : Option Clause :=
-  if !c.m.started.contains k && !(match c.op with | .call k' _ => k' = k | _ => false) then some (.c01Twice k)
+  if !c.m.started.contains k && !c.callsNow k then some (.c01Twice k)
   else if c.m.finished.contains k || seenBefore.contains k then some (.c01Twice k)
   else match o with
     | .res mk =>
       if !c.hasResp k true then some (.c01WrongResponse k)
-      else if mk ≠ (if c.m.lists.contains k || (match c.op with | .call k' l => k' = k && l | _ => false) then some k else none) then some (.c01WrongResponse k)
+      else if mk ≠ c.expectedMarker k then some (.c01WrongResponse k)
       else none
     | .rpc code =>
       if !c.hasResp k false || code ≠ -31000 - (k : Int) then some (.c01WrongResponse k) else none
@@ -217,26 +224,30 @@ def checkResps (c : Ctx) : List String → List (String × Option Int) → Optio
     else if !((c.reqKinds id).contains code || (c.m.closeCalled && code = some Generated.SseClient.serverClosingCode)) then some (.c02WrongKind id)
     else checkResps c (id :: seen) rest
 
-/-- what a live message item obliges the client to have done by the end of the step -/
+/-- why a message item may have gone astray: it (partly) arrived in the read that completed the endpoint event,
+or the client had torn the session down before -/
+def Ctx.whyItem (c : Ctx) (i : Nat) : Why :=
+  if decide (endOff c.scn.items i - (match c.scn.items[i]? with | some it => it.bytes.length | none => 0) < c.m.epReadEnd) then .sameReadAsEndpoint
+  else if c.m.termSeen || c.m.connFailed then c.why
+  else .plain
+
+/-- what one live message item (index `i`, payload `p`) obliges the client to have done by the end of the step -/
+def liveClause (c : Ctx) (i : Nat) (p : Payload) : Option Clause :=
+  match p with
+  | .resp k ok =>
+    if k = 0 ∧ ok = true then
+      (if !c.m.connRet && !c.toks.contains .connOk then some (.c01Lost 0 (c.whyItem i) (unnamedItem c.scn i)) else none)
+    else if c.m.posted.contains k && !c.m.finished.contains k && !(donesOf c.toks).any (fun d => d.1 = k) then
+      some (.c01Lost k (c.whyItem i) (unnamedItem c.scn i))
+    else none
+  | .req id _ =>
+    if !(respIdsOf c.toks).any (fun r => r.1 = id) then some (.c02Unanswered id (c.whyItem i) (unnamedItem c.scn i)) else none
+  | _ => none
+
 def checkLive (c : Ctx) : List (Nat × Payload) → Option Clause
   | [] => none
   | (i, p) :: rest =>
-    let w : Why :=
-      if decide (endOff c.scn.items i - (match c.scn.items[i]? with | some it => it.bytes.length | none => 0) < c.m.epReadEnd) then .sameReadAsEndpoint
-      else if c.m.termSeen || c.m.connFailed then c.why   -- the client had torn the session down before
-      else .plain
-    let r : Option Clause :=
-      match p with
-      | .resp 0 true =>
-        if !c.m.connRet && !c.toks.contains .connOk then some (.c01Lost 0 w (unnamedItem c.scn i)) else none
-      | .resp k ok =>
-        if c.m.posted.contains k && !c.m.finished.contains k &&
-           !(donesOf c.toks).any (fun d => d.1 = k) then some (.c01Lost k w (unnamedItem c.scn i))
-        else none
-      | .req id _ =>
-        if !(respIdsOf c.toks).any (fun r => r.1 = id) then some (.c02Unanswered id w (unnamedItem c.scn i)) else none
-      | _ => none
-    match r with
+    match liveClause c i p with
     | some cl => some cl
     | none => checkLive c rest
 
@@ -245,10 +256,18 @@ def firstSome : List (Option Clause) → Option Clause
   | some c :: _ => some c
   | none :: rest => firstSome rest
 
+def otherClause : Tok → Option Clause
+  | .other s => some (.unexpected s)
+  | _ => none
+
+def pendClause : Tok → Option Clause
+  | .pend k => some (.c01BlockedAfterTerm k)
+  | _ => none
+
 /-- the clause raised by a step, if any -/
 def monCheck (c : Ctx) : Option Clause :=
   firstSome [
-    (c.toks.find? (fun t => match t with | .other _ => true | _ => false)).map (fun t => match t with | .other s => .unexpected s | _ => .unexpected ""),
+    c.toks.findSome? otherClause,
     checkDones c [] (donesOf c.toks),
     (if c.toks.contains .connErr && !c.excused' then some (.c01ConnectFailed c.why) else none),
     (if c.toks.contains .connOk && !c.hasResp 0 true then some .c01ConnectNoResponse else none),
@@ -262,7 +281,7 @@ def monCheck (c : Ctx) : Option Clause :=
        if c.m.termSeen && !c.toks.contains .nosession && !(donesOf c.toks).any (fun d => d.1 = k) then some (.c01LateBlocked k) else none
      | .fin =>
        if c.m.termSeen then
-         (c.toks.findSome? (fun t => match t with | .pend k => some (Clause.c01BlockedAfterTerm k) | _ => none))
+         c.toks.findSome? pendClause
        else none
      | _ => none),
     (if isSubseq (c.m.nts ++ ntsOf c.toks) c.notifs then none else some .c03Order)
